@@ -264,6 +264,11 @@ func (r *ingressController) executeLuaForCanary(annotations map[string]string, w
 		return nil, err
 	}
 	returnValue := l.Get(-1)
+	if returnValue == nil {
+		// gopher-lua leaves its registry inconsistent when an xpcall message handler itself
+		// raises an error; the slot read here is then an uninitialised (Go nil) value
+		returnValue = lua.LNil
+	}
 	if returnValue.Type() == lua.LTTable {
 		jsonBytes, err := luamanager.Encode(returnValue)
 		if err != nil {
